@@ -145,6 +145,10 @@ class Lower:
                 if a in n:
                     rec = self.idx.rec_by_name.get(n.replace(a, b))
                     if rec is not None: return ('rec', rec)
+        if depth < 5 and re.search(r'\b(true|false)\b', n):
+            # bool template arguments: clang names the specialisation with 0 / 1, type strings spell false / true
+            r2 = self.idx.rec_by_name.get(re.sub(r'\bfalse\b', '0', re.sub(r'\btrue\b', '1', n)))
+            if r2 is not None: return ('rec', r2)
         if depth < 5 and '<' in n:
             # a specialisation spelled from inside a namespace (clang prints template arguments as written there): match on the
             # names with every namespace qualifier removed, unique match only
